@@ -232,11 +232,36 @@ def run_style(style):
         chk('st_Ricci_down3 (from T)', R3a, want4[1:, 1:], extra=1e3)
         chk('st_Ricci_down3 (from st_Ricci_down4)', R3b, want4[1:, 1:],
             extra=1e3)
+    # every quantity also from a FRESH instance holding only the inputs (no
+    # other request before it): alternative derivations must agree
+    from aurel.core import AurelCore
+    for key in FRESH_KEYS:
+        if style == 'Tdown4' and key in FLUID_ONLY:
+            continue
+        with quiet():
+            r2 = AurelCore(ref['fd'], verbose=False,
+                           clear_cache_every_nbr_calc=10 ** 9)
+            r2.data.update(inp)
+            r2.freeze_data()
+            v_fresh = r2[key]
+            v_main = rel[key]
+        chk(f'fresh-instance:{key}', v_fresh, v_main, extra=1e3)
     return {'style': style, 'bad': bad, 'checks': n[0],
             'points': len(ref['pts'])}
 
 
 STYLES = ('fluid', 'rho', 'rho+rho0', 'Tdown4')
+FLUID_ONLY = ('rho', 'rho0', 'eps', 'enthalpy', 'uup4', 'udown4', 'hdown4',
+              'hmixed4', 'hup4', 'conserved_D', 'conserved_E',
+              'conserved_Sdown4', 'conserved_Sdown3', 'conserved_Sup4',
+              'conserved_Sup3', 'veldown3', 'udown3')
+FRESH_KEYS = FLUID_ONLY + (
+    'Tdown4', 'Tup4', 'Ttrace', 'rho_n', 'fluxup3_n', 'fluxdown3_n',
+    'Stressup3_n', 'Stressdown3_n', 'Stresstrace_n', 'press_n',
+    'anisotropic_press_down3_n', 'angmomdown3_n', 'angmomup3_n',
+    'st_Ricci_down3')
+# (a fresh st_Ricci_down4 without Tdown4 among the inputs is the Riemann
+# contraction, i.e. finite differences - not pointwise algebra)
 
 
 def main(tier):
